@@ -634,3 +634,64 @@ def _exclusive(fi: FuncInfo, uses: list[ast.AST]) -> bool:
                 continue
             return False
     return True
+
+
+def coarse_memos(fn: ast.AST) -> list[tuple[ast.If, str, set[str]]]:
+    """`if X is None: X = f(... v ...)` inside a loop over v, where X was set to None
+    *outside* that loop: the value computed for the first v is answered for every later one."""
+    out = []
+    for i in own_nodes(fn):
+        if not (isinstance(i, ast.If) and isinstance(i.test, ast.Compare) and isinstance(i.test.left, ast.Name) and len(i.test.ops) == 1
+                and isinstance(i.test.ops[0], ast.Is) and isinstance(i.test.comparators[0], ast.Constant) and i.test.comparators[0].value is None
+                and len(i.body) == 1 and isinstance(i.body[0], ast.Assign) and any(isinstance(t, ast.Name) and t.id == i.test.left.id for t in i.body[0].targets)):
+            continue
+        x = i.test.left.id
+        used = {n.id for n in ast.walk(i.body[0].value) if isinstance(n, ast.Name)}
+        cur = parent(i)
+        while cur is not None and cur is not fn:
+            if isinstance(cur, (ast.For, ast.AsyncFor)):
+                tv = {n.id for n in ast.walk(cur.target) if isinstance(n, ast.Name)}
+                # locals derived from the loop variable inside this loop count as the loop variable
+                for a in ast.walk(cur):
+                    if isinstance(a, ast.Assign) and {n.id for n in ast.walk(a.value) if isinstance(n, ast.Name)} & tv:
+                        tv |= {t.id for t in a.targets if isinstance(t, ast.Name)} - {x}
+                reset_inside = any(isinstance(a, (ast.Assign, ast.AnnAssign)) and a is not i.body[0] and isinstance(getattr(a, "value", None), ast.Constant) and a.value.value is None
+                                   and any(isinstance(t, ast.Name) and t.id == x for t in (a.targets if isinstance(a, ast.Assign) else [a.target]))
+                                   for s_ in cur.body for a in ast.walk(s_))
+                if used & tv and not reset_inside:
+                    out.append((i, x, used & tv))
+                    break
+            cur = parent(cur)
+    return out
+
+
+_MEMO_SAMPLE = '''
+def f(items, leaves):
+    for k in items:
+        h = None
+        for leaf in leaves:
+            if h is None:
+                h = digest(k, leaf)
+            use(h)
+'''
+
+
+def rule_memo_key_complete(ctx: Ctx, rep: Report, rule: str, module_prefixes: tuple[str, ...]) -> None:
+    """A value computed once and kept (`if X is None: X = f(...)`) is kept only
+    across iterations that cannot change what it was computed from: the memo is
+    reset inside every loop whose variable the computation reads. Otherwise the
+    first iteration's value is answered for all -- a taproot script-path hash
+    computed for one leaf and signed for every leaf of the key."""
+    from sa.loader import _set_parents
+    sample = ast.parse(_MEMO_SAMPLE)
+    _set_parents(sample)
+    rep.ob(rule, "selftest:sample", len(coarse_memos(sample.body[0])) == 1, "rules/sigcommon.py:1", "the detector fires on its own sample of the defect (expected count on the tree is zero)")
+    n = 0
+    for q, fi in sorted(ctx.prog.functions.items()):
+        if not any(q.startswith(p_) for p_ in module_prefixes):
+            continue
+        n += 1
+        for i, x, tv in coarse_memos(fi.node):
+            rep.ob(rule, f"{q}:{x}", False, fi.where(i), f"`{norm(i.body[0])[:80]}` is kept across the loop over {sorted(tv)}, which it reads: every iteration after the first is answered the first one's value")
+    rep.ob(rule, "scanned", True, "btclib:1", f"{n} functions in {module_prefixes}: no memo is kept across a loop whose variable it reads")
+    rep.floor(rule, 2)
